@@ -7,7 +7,7 @@ src="$(readlink -f "$1")"; shift
 S=$(mktemp -d /tmp/seedeval.XXXXXX); trap 'rm -rf "$S"' EXIT
 git -C /repo archive HEAD | tar -x -C "$S"
 cp "$src/seed_demo_test.go" "$S/"
-racef=""; grep -qi 'go test -race' "$src/NOTES.md" 2>/dev/null && racef="-race"
+racef=""; grep -qiE -- '-race' "$src/NOTES.md" 2>/dev/null && racef="-race"
 ( cd "$S" && go test -vet=off -count=1 $racef -run 'TestSeedDemo' . > "$S/demo0.log" 2>&1 ) && echo "demo-without-change: PASS" || { echo "demo-without-change: FAIL (bad seed)"; tail -5 "$S/demo0.log"; }
 ( cd "$S" && git init -q && git apply "$src/patch.diff" ) || { echo "PATCH-FAILED"; exit 3; }
 ok=0
